@@ -66,7 +66,9 @@ Oracles (independent of the Coq model and of the code under test; all walk point
     ``index_oracle(tree)``    C02: index groups exact, public lookups exact
     ``sibling_oracle(tree)``  C03: no two children of one parent with equal data_id
     ``refusal_oracle(step)``  C13: after a library refusal the observable state is unchanged
-    ``effect_oracle(step)``   C04: documented effect + frame condition (see `Spec` below)
+    ``effect_oracle(step, world)``  C04: documented effect + frame condition (harness/mut_spec.py, an independent
+                              specification of every op on nested lists)
+    (the three tree oracles take an optional second argument `world` so that messages name nodes by relative id)
 ``run_group(group, oracles)`` replays one exhaustive group (setup + every alternative) and returns
 ``(coq term CAlts, observation, [Run])``; ``first(iterable)``; ``World`` (rel/raw/live_node/obs...) is the
 implementation side of a running history (use ``replay(..., keep_world=True).world`` to probe the live trees
@@ -75,7 +77,14 @@ Generators: ``gen_shapes(shapes, ...)`` (explicit deeper shapes, EXTRA_SHAPES), 
 nodes, as (setup, alternatives) groups), ``gen_random(rng, n_ops, ...)`` (mostly-valid histories),
 ``gen_malformed(rng, n_ops)`` (invalid `before`, colliding ids, foreign targets, moves into the own
 branch; removed nodes are never referenced).  ``shrink_candidates(hist)``: drop ops, drop setup nodes.
-``CORPUS``: minimal witnesses of the defects repaired by fixes/D*.diff (each fails on the unchanged code).
+``gen_addtree()``: two-tree worlds x every add(tree)/copy_to argument.  ``setup_ops(nodes, ti, typed)``: the add ops that
+build a forest given in build.py NODE format.  ``Gen``: the stateful generator behind gen_random (``Gen(rng).step()``).
+``compact_universe(hist)``, ``renumber(op, dropped_ids)``: shrinking helpers.
+``CORPUS``: minimal witnesses of the defects repaired by fixes/D*.diff (each fails on the unchanged code) and regression
+histories (ids starting with R-).
+A property module is a thin wrapper: ``descs`` yields histories / groups from the generators, ``run`` calls ``replay`` or
+``run_group`` with the oracles it owns, uses ``coq_case``/``coq_alts`` as Coq input for `CaseMut.run_mut` (or feeds
+``Run.coq`` to its own case function) and ``Run.fails`` as oracle verdict; see harness/props/C04.py.
 """
 from __future__ import annotations
 
